@@ -316,9 +316,17 @@ async def run_buffered_midfeed(case: dict, col) -> None:  # noqa: ANN001
                 consumed += r
             elif op == "until":
                 d = bytes(call[1], "latin-1")
-                r = await s.receive_until(d, call[2])
+                try:
+                    r = await s.receive_until(d, call[2])
+                except DelimiterNotFound:
+                    if d in bytes(s.buffer)[: call[2]]:
+                        viol.append(("DelimiterNotFound-although-the-delimiter-is-within-max_bytes",
+                                     {"delim": d, "max_bytes": call[2], "buffer": bytes(s.buffer)}))  # fmt: skip
+
+                    raise
+
                 if d in r:
-                    viol.append(("until-wrong-result", {"delim": d, "got": r}))
+                    viol.append(("until-result-includes-the-delimiter", {"delim": d, "got": r}))
 
                 consumed += r + d
             elif op == "drain":
@@ -412,6 +420,13 @@ def buffered_cases(tier: str, seed: int):  # noqa: ANN201
                    for _ in range(rng.randrange(1, 3))}  # fmt: skip
         yield {"t": "bufmid", "data": data, "cuts": cuts, "kind": rng.choice(["byte", "obj"]),
                "calls": calls, "midfeed": midfeed}  # fmt: skip
+        # ... and the fed bytes contain the delimiter a suspended receive_until() looks for
+        # (an upper-case one, so that the per-origin accounting still works)
+        calls2 = [["until", "Q", rng.choice([2, 3, 5, 8, 100])] if c[0] == "until" else c for c in calls]
+        calls2.insert(rng.randrange(0, len(calls2) + 1), ["until", "Q", rng.choice([3, 5, 100])])
+        midfeed2 = {k: rng.choice(["XQY", "Q", "XQ", "QY", "XYQZ"]) for k in midfeed}
+        yield {"t": "bufmid", "data": data, "cuts": cuts, "kind": rng.choice(["byte", "obj"]),
+               "calls": calls2, "midfeed": midfeed2}  # fmt: skip
 
     for _ in range(60000 if tier == "thorough" else 6000):
         ln = rng.randrange(6, 40)
